@@ -636,10 +636,51 @@ func ruleSortBeforeBuild(c *eng.Ctx) {
 
 // edgeSetsRecursed returns which Block edge sets ("Heads", "Links", "AllLinks") are iterated by loops
 // of fi whose body (or direct indexing expression) feeds a recursive call to fi.
-func edgeSetsRecursed(p *eng.Program, fi *eng.FuncInfo) (map[string]token.Pos, map[string]token.Pos) {
+// recursionGroup: fi plus the package functions it calls that call back into fi (a walk split into
+// helpers is still one walk).
+func recursionGroup(p *eng.Program, fi *eng.FuncInfo) []*eng.FuncInfo {
+	group := []*eng.FuncInfo{fi}
 	info := fi.Pkg.TypesInfo
+	seen := map[*eng.FuncInfo]bool{fi: true}
+	for _, cs := range eng.Calls(info, fi.Decl.Body) {
+		g := p.FuncOfObj(cs.Callee)
+		if g == nil || seen[g] || g.Pkg != fi.Pkg || g.Decl.Body == nil {
+			continue
+		}
+		back := false
+		for _, c2 := range eng.Calls(g.Pkg.TypesInfo, g.Decl.Body) {
+			if c2.Callee == fi.Obj || c2.Callee == g.Obj {
+				back = true
+			}
+		}
+		if back {
+			seen[g] = true
+			group = append(group, g)
+		}
+	}
+	return group
+}
+
+func edgeSetsRecursed(p *eng.Program, root *eng.FuncInfo) (map[string]token.Pos, map[string]token.Pos) {
 	ranged := map[string]token.Pos{}  // via range loop: all elements
 	indexed := map[string]token.Pos{} // via X[i]: one element only
+	group := recursionGroup(p, root)
+	inGroup := func(o *types.Func) bool {
+		for _, g := range group {
+			if g.Obj == o {
+				return true
+			}
+		}
+		return false
+	}
+	for _, fi := range group {
+		edgeSetsOne(fi, inGroup, ranged, indexed)
+	}
+	return ranged, indexed
+}
+
+func edgeSetsOne(fi *eng.FuncInfo, inGroup func(*types.Func) bool, ranged, indexed map[string]token.Pos) {
+	info := fi.Pkg.TypesInfo
 	classify := func(e ast.Expr) string {
 		e = ast.Unparen(e)
 		// follow a local variable to its single assignment
@@ -665,7 +706,7 @@ func edgeSetsRecursed(p *eng.Program, fi *eng.FuncInfo) (map[string]token.Pos, m
 		return ""
 	}
 	recursive := func(n ast.Node) bool {
-		return eng.FindCall(n, true, func(call *ast.CallExpr) bool { return eng.Callee(info, call) == fi.Obj }) != nil
+		return eng.FindCall(n, true, func(call *ast.CallExpr) bool { return inGroup(eng.Callee(info, call)) }) != nil
 	}
 	ast.Inspect(fi.Decl.Body, func(m ast.Node) bool {
 		switch s := m.(type) {
@@ -674,7 +715,7 @@ func edgeSetsRecursed(p *eng.Program, fi *eng.FuncInfo) (map[string]token.Pos, m
 				ranged[k] = s.Pos()
 			}
 		case *ast.CallExpr:
-			if eng.Callee(info, s) == fi.Obj {
+			if inGroup(eng.Callee(info, s)) {
 				for _, a := range s.Args {
 					ast.Inspect(a, func(x ast.Node) bool {
 						if ix, ok := x.(*ast.IndexExpr); ok {
@@ -689,7 +730,6 @@ func edgeSetsRecursed(p *eng.Program, fi *eng.FuncInfo) (map[string]token.Pos, m
 		}
 		return true
 	})
-	return ranged, indexed
 }
 
 // walkPartition checks enqueue ∈ {Heads} (all of them) and apply ∈ {Links}.
